@@ -92,8 +92,8 @@ async fn blind(s: &mut Box<dyn Sut>, cfg: &Cfg, idx: usize, op: &Op, labels: &mu
         Op::WaitIdle => {
             let _ = wait_quiet(s.as_ref(), true, Duration::from_secs(60)).await;
         }
-        Op::Offload { level } => {
-            let _ = s.offload(usize::MAX, *level as usize).await;
+        Op::Offload { level, need } => {
+            let _ = s.offload(crate::ops::offload_needed(*need), *level as usize).await;
         }
         Op::Fsync => {
             let _ = s.fsyncdata().await;
@@ -290,6 +290,127 @@ fn sample_sem(c: &SemCase) -> Value {
     json!({"rt_workers": c.cfg.rt_workers, "closed_blobs_waiting": c.blobs, "how(0 try_close,1 bg close,2 overflow rotation,3 markers into all closed blobs)": c.how, "permit_held_ms": c.hold_ms})
 }
 
+/// A steady stream of dump-deferring requests: deletion markers go into a closed, already indexed blob with gaps shorter than
+/// the deferred-dump minimum, for longer than the deferred-dump maximum. The maximum waiting time (Builder::
+/// set_deferred_index_dump_times) bounds how long a requested dump may be put off: the index has to be written again WHILE
+/// the stream lasts. The stream only ends when that happened (pass) or after ten times the maximum plus three seconds.
+#[derive(Clone, Debug, serde::Serialize, serde::Deserialize)]
+pub struct StreamCase {
+    pub cfg: Cfg,
+    pub gap_ms: u8,
+    /// a rotation is requested in the middle of the stream as well (its dump attaches to the pending deferred one)
+    pub switch_inside: bool,
+}
+
+fn stream_cases(thorough: bool) -> Vec<StreamCase> {
+    let mut v = vec![];
+    for (min, max) in if thorough { vec![(150u64, 450u64), (250, 500), (120, 900)] } else { vec![(150u64, 450u64)] } {
+        for gap_ms in if thorough { vec![3u8, 10, 25] } else { vec![5u8, 15] } {
+            for rt_workers in [2usize, 0] {
+                for switch_inside in [false, true] {
+                    v.push(StreamCase { cfg: Cfg { keylen: 8, rt_workers, allow_dup: true, defer_ms: (min, max), ..Cfg::default() }, gap_ms, switch_inside });
+                }
+            }
+        }
+    }
+    v
+}
+
+pub fn run_stream(c: &StreamCase, dir: &Path, _findings: &Findings) -> Result<CaseOut, Failure> {
+    let rt = c.cfg.runtime();
+    let _ = std::fs::remove_dir_all(dir);
+    let res = rt.block_on(async {
+        let s = match sut::open(&c.cfg, dir, false).await {
+            Ok(s) => s,
+            Err(e) => return fail("init/err", format!("{:#}", e), 0, "init"),
+        };
+        let mut stats = Stats::default();
+        let (min, max) = c.cfg.defer_ms;
+        let limit = Duration::from_millis(max * 10 + 3000);
+        let n = (limit.as_millis() as u64 / c.gap_ms.max(1) as u64 + 50) as u32;
+        let key = |i: u32| (i as u64 + 1).to_be_bytes().to_vec();
+        for i in 0..n.min(4000) {
+            if let Err(e) = s.write(&key(i), Bytes::from(vec![b's'; 12]), 1, None).await {
+                return fail("write/err", format!("{:#}", e), 0, "write");
+            }
+            stats.writes += 1;
+        }
+        if let Err(e) = s.try_close_active().await {
+            return fail("close_active/err", format!("{:#}", e), 0, "close");
+        }
+        let _ = s.try_create_active().await;
+        if let Err(st) = wait_quiet(s.as_ref(), true, Duration::from_secs(60)).await {
+            return fail("bg/stall", format!("before the stream: {:?}", st), 0, "wait");
+        }
+        let ip = sut::index_path(dir, 0);
+        let count_of = |p: &Path| std::fs::read(p).ok().and_then(|b| crate::blobfmt::index_layout(&b)).filter(|l| l.written).map(|l| l.records_count);
+        let base = match count_of(&ip) {
+            Some(c0) => c0,
+            None => return fail("bg/dump-not-completed", "closed blob 0 has no complete index file at idle".into(), 0, "wait"),
+        };
+        // the stream
+        let t0 = std::time::Instant::now();
+        let mut sent = 0u32;
+        let mut worst_gap = Duration::ZERO;
+        let mut last = t0;
+        let mut redumped_after: Option<Duration> = None;
+        while t0.elapsed() < limit && sent < n.min(4000) {
+            match s.delete(&key(sent), 5, None, true).await {
+                Ok(_) => {}
+                Err(e) => return fail("delete/err", format!("{:#}", e), sent as usize, "delete"),
+            }
+            sent += 1;
+            stats.deletes += 1;
+            if c.switch_inside && sent == 12 {
+                let _ = s.try_close_active().await;
+                let _ = s.try_create_active().await;
+            }
+            let now = std::time::Instant::now();
+            worst_gap = worst_gap.max(now - last);
+            last = now;
+            if count_of(&ip).map_or(false, |c1| c1 > base) {
+                redumped_after = Some(t0.elapsed());
+                break;
+            }
+            tokio::time::sleep(Duration::from_millis(c.gap_ms as u64)).await;
+        }
+        let mut labels = BTreeSet::new();
+        labels.insert(format!("stream_gap_{}ms", c.gap_ms));
+        let streamed = t0.elapsed();
+        if redumped_after.is_none() {
+            // only a stream whose gaps stayed below the minimum for the whole time says anything about the maximum
+            if worst_gap < Duration::from_millis(min) && streamed >= limit {
+                return fail("bg/deferred-dump-starved", format!("{} deletion markers went into closed blob 0 over {:?} (largest gap {:?}, deferred-dump times {} / {} ms) and its index file was never written again while the stream lasted", sent, streamed, worst_gap, min, max), sent as usize, "stream");
+            }
+            labels.insert("stream_inconclusive".to_string());
+        } else {
+            labels.insert("redumped_during_stream".to_string());
+        }
+        match wait_quiet(s.as_ref(), true, Duration::from_secs(60)).await {
+            Ok(_) => {}
+            Err(st) => {
+                let clause = if st.worker_alive() { "bg/stall" } else { "bg/worker-dead" };
+                return fail(clause, format!("after the stream: {:?}", st), sent as usize, "wait");
+            }
+        }
+        if let Err(d) = closed_blobs_indexed(s.as_ref(), dir).await {
+            return fail("bg/dump-not-completed", d, sent as usize, "wait");
+        }
+        match tokio::time::timeout(Duration::from_secs(120), s.close()).await {
+            Ok(Ok(())) => {}
+            Ok(Err(e)) => return fail("close/err", format!("{:#}", e), sent as usize, "close"),
+            Err(_) => return Err(Failure { clause: "harness/timeout".into(), detail: "close() did not return within 120 s".into(), step: 0, op: "close".into() }),
+        }
+        Ok(CaseOut { nontrivial: redumped_after.map_or(false, |d| d >= Duration::from_millis(min)) && sent >= 3, labels, stats, known_hits: Default::default(), weight: 1 })
+    });
+    drop(rt);
+    res
+}
+
+fn sample_stream(c: &StreamCase) -> Value {
+    json!({"rt_workers": c.cfg.rt_workers, "deferred_dump_min_max_ms": c.cfg.defer_ms, "gap_between_markers_ms": c.gap_ms, "rotation_inside_stream": c.switch_inside})
+}
+
 pub fn run_live(c: &Case, dir: &Path, _findings: &Findings) -> Result<CaseOut, Failure> {
     let rt = c.cfg.runtime();
     let _ = std::fs::remove_dir_all(dir);
@@ -426,10 +547,12 @@ pub fn run(ctx: &RunCtx) -> PropResult {
     run_generated(ctx, "live", ctx.tier.pick(640, 20_000), live_strategy, runf, &sample, &mut report);
     let runf = |c: &SemCase, d: &Path| run_sem(c, d, &findings);
     run_enumerated(ctx, "live-dumpsem", sem_cases(ctx.tier == Tier::Thorough), runf, &sample_sem, &mut report);
+    let runf = |c: &StreamCase, d: &Path| run_stream(c, d, &findings);
+    run_enumerated(ctx, "live-stream", stream_cases(ctx.tier == Tier::Thorough), runf, &sample_stream, &mut report);
     PropResult {
         report,
         level: "exploration",
-        rule: "proptest sequences over all public calls (create_/close_/restore_active_blob_in_background in every active-blob state, try_* variants, force_update with four predicates plus a slow one (8 ms, longer than the deferred-dump times; spliced as delete - slow predicate - delete so that the worker is late for a pending deferred dump while the next deferring request is already queued), data ops, offload, fsync, free, restarts) with a record limit of 3-11 or a byte limit of a few hundred bytes and 2-5 ms deferred dumps; then the probe: make sure an active blob exists, wait 230 ms (the rotation debounce is 200 ms of blob age), write limit+1 records, wait until the background machinery is idle (H3 probe). Oracle at idle: the worker task is alive, next_blob_id and blobs_count advanced (a switch happened), every non-empty closed blob has an index file with the written flag and its current blob size (requested dumps completed), close() returns Ok. Idle means nothing is pending, so a missing switch is definite, not a timing guess. An enumerated phase (live-dumpsem) gives the storage a caller-owned one-permit dump semaphore (Builder::set_dump_sem), lets 'another storage' hold the permit for 0-900 ms while a blob is closed (try_close, background close, or rotation by overflow) or while deletion markers make several closed blobs wait for one re-dump pass and requires every requested dump to have happened at idle after the release, and the permit to be back. Non-trivial = the sequence contains a background request that could not apply in its state (live); the permit was held for >= 250 ms (live-dumpsem). distinct = FNV hash of the serialized case.".into(),
+        rule: "proptest sequences over all public calls (create_/close_/restore_active_blob_in_background in every active-blob state, try_* variants, force_update with four predicates plus a slow one (8 ms, longer than the deferred-dump times; spliced as delete - slow predicate - delete so that the worker is late for a pending deferred dump while the next deferring request is already queued), data ops, offload, fsync, free, restarts) with a record limit of 3-11 or a byte limit of a few hundred bytes and 2-5 ms deferred dumps; then the probe: make sure an active blob exists, wait 230 ms (the rotation debounce is 200 ms of blob age), write limit+1 records, wait until the background machinery is idle (H3 probe). Oracle at idle: the worker task is alive, next_blob_id and blobs_count advanced (a switch happened), every non-empty closed blob has an index file with the written flag and its current blob size (requested dumps completed), close() returns Ok. Idle means nothing is pending, so a missing switch is definite, not a timing guess. An enumerated phase (live-dumpsem) gives the storage a caller-owned one-permit dump semaphore (Builder::set_dump_sem), lets 'another storage' hold the permit for 0-900 ms while a blob is closed (try_close, background close, or rotation by overflow) or while deletion markers make several closed blobs wait for one re-dump pass and requires every requested dump to have happened at idle after the release, and the permit to be back. A third enumerated phase (live-stream) sends deletion markers into a closed, indexed blob with gaps (3-25 ms) below the deferred-dump minimum (120-250 ms) for up to ten times the maximum (450-900 ms) plus 3 s, optionally with a rotation inside the stream, and requires the blob's index file to be written again WHILE the stream lasts (the maximum waiting time bounds the deferral); a stream whose largest gap reached the minimum is counted as inconclusive, not judged. Non-trivial = the sequence contains a background request that could not apply in its state (live); the permit was held for >= 250 ms (live-dumpsem); the re-dump came after at least the minimum time of streaming (live-stream). distinct = FNV hash of the serialized case.".into(),
         assumptions: {
             let mut a = common_assumptions();
             a.push("a close() that does not return within 120 s ends the run as inconclusive (exit 2), never as a violation".into());
@@ -445,6 +568,9 @@ pub fn replay_other(phase: &str, case: &Value, dir: &Path, findings: &Findings) 
     } else if phase == "live-dumpsem" {
         let runf = |c: &SemCase, d: &Path| run_sem(c, d, findings);
         serde_json::from_value::<SemCase>(case.clone()).ok().map(|c| guarded(&c, dir, &runf))
+    } else if phase == "live-stream" {
+        let runf = |c: &StreamCase, d: &Path| run_stream(c, d, findings);
+        serde_json::from_value::<StreamCase>(case.clone()).ok().map(|c| guarded(&c, dir, &runf))
     } else {
         None
     }
